@@ -4,6 +4,7 @@ import (
 	"fmt"
 	"math/rand"
 	"strings"
+	"sync"
 	"sync/atomic"
 	"time"
 
@@ -63,12 +64,128 @@ func c14Child(run *evid.Run, batch, nb int, j *Journal) {
 	}
 }
 
-var c14Kinds = []string{"live-append", "live-merge", "cross", "ring", "cross", "live-append"}
+var c14Kinds = []string{"live-append", "live-merge", "cross", "ring", "cross", "live-append", "cross-4party"}
 var c14Regimes = []string{"free", "noise", "park-source-heads-read", "park-source-entries-read", "park-holding-own-lock"}
+
+// c14FourParty: two logs merge each other in loops while a separate goroutine appends to each of them. With two
+// mutators per log the state chain is no longer exact, so only the schedule-independent clauses are checked:
+// termination, every head is an entry, causal closure, nothing that was appended or merged is lost from the view.
+func c14FourParty(run *evid.Run, i int, regime string, j *Journal) {
+	rng := rand.New(rand.NewSource(run.Seed*331 + int64(i)))
+	w := hx.NewWorld(run.Seed, 4, fmt.Sprintf("c14p-%d-%d", run.Seed, i), "hash", "cbor")
+	label := fmt.Sprintf("#%d cross-4party regime=%s", i, regime)
+	j.Log(map[string]any{"scenario": label})
+	logs := []*ipfslog.IPFSLog{w.NewLog(0), w.NewLog(1)}
+	for k, l := range logs {
+		for n := rng.Intn(3); n > 0; n-- {
+			_, _ = l.Append(w.Ctx, []byte(fmt.Sprintf("init-%d-%d", k, n)), nil)
+		}
+	}
+	tags := map[*ipfslog.IPFSLog]string{logs[0]: "A", logs[1]: "B"}
+	p := newPlan(uint64(run.Seed)*37+uint64(i), regime == "noise", tags)
+	switch regime {
+	case "park-source-heads-read":
+		p.parkLog, p.parkPoint = logs[0], "rawheads.enter"
+	case "park-source-entries-read":
+		p.parkLog, p.parkPoint = logs[0], "getentries.enter"
+	case "park-holding-own-lock":
+		p.parkLog, p.parkPoint = logs[1], "join.locked"
+	}
+	activePlan.Store(p)
+	nops := 6 + rng.Intn(8)
+	var appended [2][]string
+	var amu sync.Mutex
+	universe := model.Set{}
+	done := runWorkers(4, func(g int) {
+		k := g % 2
+		if g < 2 { // joiner of log k
+			for n := 0; n < nops; n++ {
+				if _, err := logs[k].Join(logs[1-k], -1); err != nil {
+					run.Violate("C14/join-error", det("kind", "cross-4party"), map[string]any{"scenario": label}, "merge failed: %v", err)
+				}
+			}
+			return
+		}
+		for n := 0; n < nops; n++ { // appender of log k
+			e, err := logs[k].Append(w.Ctx, []byte(fmt.Sprintf("%c-%d", 'A'+k, n)), nil)
+			if err != nil {
+				run.Violate("C14/append-error", det(), map[string]any{"scenario": label}, "append failed: %v", err)
+				continue
+			}
+			amu.Lock()
+			appended[k] = append(appended[k], e.GetHash().String())
+			universe[e.GetHash().String()] = hx.ToModel(e)
+			amu.Unlock()
+		}
+	})
+	if p.parkLog != nil {
+		go func() {
+			select {
+			case <-p.parked:
+				time.Sleep(15 * time.Millisecond)
+			case <-done:
+			}
+			close(p.release)
+		}()
+	}
+	ok, dead, dump := waitAll(done, p, 60*time.Second)
+	activePlan.Store(nil)
+	run.Eval(1)
+	run.Count("scenarios_cross-4party", 1)
+	run.Count("regime_"+regime, 1)
+	tr := p.traceCopy()
+	wit := func() map[string]any {
+		return map[string]any{"scenario": label, "seed": run.Seed, "ops_per_goroutine": nops, "hook_trace_tail": tail(tr, 80)}
+	}
+	if !ok {
+		if dead {
+			wt := wit()
+			wt["blocked_goroutines"] = dump
+			run.Violate("C14/deadlock", det("kind", "cross-4party", "regime", regime), wt, "two logs merging each other while both are appended to deadlocked (%s)", label)
+		} else {
+			run.Inconclusive("watchdog fired without a deadlock state: " + label)
+		}
+		return
+	}
+	for k, l := range logs {
+		o := hx.Observe(l)
+		d := det("kind", "cross-4party", "regime", regime)
+		for _, hd := range o.Heads {
+			if _, in := o.Set[hd]; !in {
+				run.Violate("C14/head-not-entry", d, wit(), "log %c: head %s is not an entry", 'A'+k, hx.Short(hd))
+			}
+		}
+		for hs, e := range o.Set {
+			for _, n := range e.Next {
+				if _, in := o.Set[n]; !in {
+					run.Violate("C14/not-closed", d, wit(), "log %c holds %s but not its predecessor %s", 'A'+k, hx.Short(hs), hx.Short(n))
+				}
+			}
+		}
+		if !model.EqualAsSets(o.Heads, model.Heads(o.Set)) {
+			run.Violate("C14/heads", d, wit(), "log %c: heads %v are not the unreferenced entries %v", 'A'+k, hx.SortedShorts(o.Heads), hx.Shorts(model.Heads(o.Set)))
+		}
+		in := setOf(o.Values)
+		for _, a := range appended[k] {
+			if !in[a] {
+				run.Violate("C14/append-lost", d, wit(), "an entry appended to log %c while it was merging is missing from its values afterwards", 'A'+k)
+				break
+			}
+		}
+		if len(o.Values) != len(o.Set) {
+			run.Violate("C14/not-a-snapshot", d, wit(), "log %c holds %d entries but its view has %d", 'A'+k, len(o.Set), len(o.Values))
+		}
+	}
+	run.NonTrivial("cross-4party/" + regime + "/" + model.DigestSeq(tr))
+}
 
 func c14Scenario(run *evid.Run, i int, j *Journal) {
 	rng := rand.New(rand.NewSource(run.Seed*577215 + int64(i)))
 	kind := c14Kinds[i%len(c14Kinds)]
+	if kind == "cross-4party" {
+		c14FourParty(run, i, c14Regimes[(i/len(c14Kinds))%len(c14Regimes)], j)
+		return
+	}
 	regime := c14Regimes[(i/len(c14Kinds))%len(c14Regimes)]
 	w := hx.NewWorld(run.Seed, 4, fmt.Sprintf("c14-%d-%d", run.Seed, i), "hash", "cbor")
 	label := fmt.Sprintf("#%d %s regime=%s", i, kind, regime)
